@@ -67,7 +67,7 @@ DEFAULTS = {
     "RLoss": {"rt": 0.0},
     "VLoss": {"rt": 0.0},
     "Converter": {"iq": 0.0, "iis": 0.0, "rt": 0.0},
-    "LinReg": {"vdrop": 0.0, "ig": 0.0, "iis": 0.0, "rt": 0.0},
+    "LinReg": {"vdrop": 0.0, "ig": 0.0, "iq": 0.0, "iis": 0.0, "rt": 0.0},
     "PSwitch": {"rs": 0.0, "ig": 0.0, "iis": 0.0, "rt": 0.0},
     "PMux": {"rs": 0.0, "ig": 0.0, "iis": 0.0, "rt": 0.0},
     "Rectifier": {"vdrop": 0.0, "rs": 0.0, "ig": 0.0, "iq": 0.0, "rt": 0.0},
@@ -104,15 +104,47 @@ def mk(kind, name, p=None, lim=None):
     return {"kind": kind, "name": name, "p": dict(p or {}), "lim": lim}
 
 
+CURRENT_WORLD = None  # set by World.__enter__ (the simulated disk for file-built components)
+
+
 def build(spec):
-    """Instantiate a real sysloss component from a spec (fresh objects)."""
+    """Instantiate a real sysloss component from a spec (fresh objects).  A
+    spec flagged `via_file` is written to the simulated disk as a TOML file and
+    built with Kind.from_file (the documented equivalent of the constructor)."""
     import sysloss.components as C
 
     cls = getattr(C, spec["kind"])
+    if spec.get("via_file") and CURRENT_WORLD is not None and file_representable(spec):
+        from .c13 import write_toml
+
+        p = copy.deepcopy(spec["p"])
+        if spec["kind"] == "Rectifier" and "vdrop" not in p:
+            p["vdrop"] = 0.0
+        if spec["kind"] == "Converter" and not is_table(p["eff"]):
+            p["eff"] = float(p["eff"])
+        path = "comp_%s.toml" % abs(hash_name(spec["name"]))
+        CURRENT_WORLD.disk.files[path] = "\n".join(write_toml(spec["kind"], p, copy.deepcopy(spec.get("lim")))) + "\n"
+        return cls.from_file(spec["name"], fname=path)
     kw = copy.deepcopy(spec["p"])
     if spec.get("lim") is not None:
         kw["limits"] = copy.deepcopy(spec["lim"])
     return cls(spec["name"], **kw)
+
+
+def hash_name(name):
+    h = 0
+    for ch in name.encode():
+        h = (h * 131 + ch) % 1000003
+    return h
+
+
+def file_representable(spec):
+    import math
+
+    for lv in (spec.get("lim") or {}).values():
+        if any(isinstance(x, float) and not math.isfinite(x) for x in lv):
+            return False
+    return True
 
 
 def is_table(x):
